@@ -243,6 +243,7 @@ pub enum Part { Regular(Seq<char>), Special(Seq<char>) }
 spec fn part_of(t: TokenInput) -> Part {
     match t { TokenInput::Regular(s) => Part::Regular(s@), TokenInput::Special(s) => Part::Special(s@) }
 }
+spec fn parts_of(v: Seq<TokenInput>) -> Seq<Part> { v.map(|k: int, t: TokenInput| part_of(t)) }
 pub open spec fn parts_text(p: Seq<Part>) -> Seq<char>
     decreases p.len()
 {
@@ -256,6 +257,56 @@ pub open spec fn ngroups(p: Seq<Part>, k: int, g: bool) -> nat
     if k <= 0 || k > p.len() { 0 } else {
         ngroups(p, k - 1, g) + (match p[k - 1] { Part::Regular(x) => chars_of(x, g).len(), Part::Special(_) => 1 })
     }
+}
+
+/// byte-offset substrings at the level of the character view (str slicing): assumed laws of `&s[a..b]`
+pub uninterp spec fn blen(s: Seq<char>) -> int;            // UTF-8 byte length
+pub uninterp spec fn is_boundary(s: Seq<char>, i: int) -> bool;
+pub uninterp spec fn sub_chars(s: Seq<char>, a: int, b: int) -> Seq<char>;
+#[verifier::external_body]
+proof fn axiom_sub_chars(s: Seq<char>, a: int, b: int, c: int)
+    requires 0 <= a <= b <= c <= blen(s),
+    ensures sub_chars(s, a, b) + sub_chars(s, b, c) == sub_chars(s, a, c), sub_chars(s, a, a) == Seq::<char>::empty(), is_boundary(s, 0), is_boundary(s, blen(s)), blen(s) >= 0,
+{}
+#[verifier::external_body]
+proof fn axiom_sub_chars_full(s: Seq<char>)
+    ensures sub_chars(s, 0, blen(s)) == s, blen(s) >= 0,
+{}
+/// `&s[a..b]`: panics unless a <= b <= len on character boundaries
+#[verifier::external_body]
+fn vt_str_slice<'a>(s: &'a str, a: usize, b: usize) -> (r: &'a str)
+    requires a <= b <= blen(s@), is_boundary(s@, a as int), is_boundary(s@, b as int),
+    ensures r@ == sub_chars(s@, a as int, b as int),
+{ &s[a..b] }
+#[verifier::external_body]
+fn vt_str_len(s: &str) -> (r: usize) ensures r == blen(s@) { s.len() }
+
+/// regex::Regex::find_iter / regex::Match: external.  Assumed: the matches are non-empty, on character boundaries, in
+/// order and non-overlapping, and every matched text belongs to the pattern's language.
+pub uninterp spec fn regex_lang(r: Regex) -> Set<Seq<char>>;
+#[verifier::external_body]
+pub struct Match<'h> { _p: core::marker::PhantomData<&'h str> }
+pub uninterp spec fn match_span<'h>(m: Match<'h>) -> (int, int);
+impl<'h> Match<'h> {
+    pub open spec fn start_spec(&self) -> int { match_span(*self).0 }
+    pub open spec fn end_spec(&self) -> int { match_span(*self).1 }
+    #[verifier::external_body]
+    pub fn start(&self) -> (r: usize) ensures r == self.start_spec() { unimplemented!() }
+    #[verifier::external_body]
+    pub fn end(&self) -> (r: usize) ensures r == self.end_spec() { unimplemented!() }
+}
+pub open spec fn matches_ok(r: Regex, s: Seq<char>, ms: Seq<Match>) -> bool {
+    &&& forall|i: int| 0 <= i < ms.len() ==> 0 <= (#[trigger] ms[i]).start_spec() < ms[i].end_spec() <= blen(s)
+            && is_boundary(s, ms[i].start_spec()) && is_boundary(s, ms[i].end_spec())
+            && regex_lang(r).contains(sub_chars(s, ms[i].start_spec(), ms[i].end_spec()))
+    &&& forall|i: int, j: int| 0 <= i < j < ms.len() ==> (#[trigger] ms[i]).end_spec() <= (#[trigger] ms[j]).start_spec()
+}
+impl Regex {
+    /// the real `find_iter` returns a lazy iterator; its items in order are modelled as a vector
+    #[verifier::external_body]
+    pub fn find_iter<'r, 'h>(&'r self, s: &'h str) -> (ms: Vec<Match<'h>>)
+        ensures matches_ok(*self, s@, ms@),
+    { unimplemented!() }
 }
 
 impl<Config, State> BaseTokenizer<Config, State> {
@@ -305,10 +356,103 @@ impl<Config, State> BaseTokenizer<Config, State> {
         &&& (ignore || !self.has_pattern() ==> p == seq![Part::Regular(s)])
     }
 
+    /// ASSUMED (established by new_base_tokenizer, which is not a unit; explored by the bounded stand-in of C01): the
+    /// language of the special-token pattern is the set of special-token spellings
     #[verifier::external_body]
+    proof fn axiom_pattern_lang(&self)
+        ensures self.special_token_pattern.is_some() ==>
+            forall|x: Seq<char>| #[trigger] regex_lang(self.special_token_pattern.unwrap()).contains(x) ==> self.special_id(x).is_some(),
+    {}
+
+//@unit src/tokenization.rs fn split_input
+//@rule R16(pattern.find_iter(s) ;; ms)
+//@rule R11(s)
+//@rule R11_open(s)
+//@rule R11_str(s)
     fn split_input<'a>(&self, s: &'a str, ignore_special_tokens: bool) -> (r: Vec<TokenInput<'a>>)
-        ensures self.split_ok(s@, ignore_special_tokens, r@.map(|k: int, t: TokenInput| part_of(t))),
-    { unimplemented!() }
+        ensures self.split_ok(s@, ignore_special_tokens, parts_of(r@)),
+    {
+        if ignore_special_tokens || self.special_token_pattern.is_none() {
+            proof {
+                let p = seq![Part::Regular(s@)];
+                assert(p.drop_last() =~= Seq::<Part>::empty());
+                assert(parts_text(p.drop_last()) =~= Seq::<char>::empty());
+                assert(p.last() == Part::Regular(s@));
+                assert(parts_text(p) =~= s@);
+                assert forall|v: Seq<TokenInput>| v.len() == 1 && v[0] == TokenInput::Regular(s) implies #[trigger] parts_of(v) == p by {
+                    assert(parts_of(v) =~= p);
+                }
+            }
+            return vec![TokenInput::Regular(s)];
+        }
+        let pattern = self.special_token_pattern.as_ref().expect("cannot be none");
+        let mut splits = vec![];
+        let mut last = 0;
+        let ghost mut parts: Seq<Part> = Seq::empty();
+        let ghost n = blen(s@);
+        proof { self.axiom_pattern_lang(); axiom_sub_chars_full(s@); axiom_sub_chars(s@, 0, 0, 0); assert(parts_text(parts) =~= Seq::<char>::empty()); }
+        let ms = pattern.find_iter(s);
+        for m in it: ms
+            invariant
+                n == blen(s@), it.seq() == ms@, matches_ok(*pattern, s@, ms@),
+                self.special_token_pattern.is_some(), *pattern == self.special_token_pattern.unwrap(),
+                forall|x: Seq<char>| #[trigger] regex_lang(*pattern).contains(x) ==> self.special_id(x).is_some(),
+                0 <= last <= n, is_boundary(s@, last as int),
+                it.index@ > 0 ==> last == ms@[it.index@ - 1].end_spec(),
+                it.index@ == 0 ==> last == 0,
+                parts == parts_of(splits@),
+                parts_text(parts) == sub_chars(s@, 0, last as int),
+                forall|k: int| 0 <= k < parts.len() ==> (match #[trigger] parts[k] { Part::Special(x) => self.special_id(x).is_some(), Part::Regular(_) => true }),
+        {
+            let ghost i = it.index@ as int;
+            proof {
+                assert(m == ms@[i]);
+                if i > 0 { assert(ms@[i - 1].end_spec() <= ms@[i].start_spec()); }
+            }
+            if m.start() > last {
+                let ghost p0 = parts;
+                splits.push(TokenInput::Regular(vt_str_slice(s, last, m.start())));
+                proof {
+                    parts = p0.push(Part::Regular(sub_chars(s@, last as int, m.start_spec())));
+                    assert(parts.drop_last() =~= p0);
+                    assert(parts.last() == Part::Regular(sub_chars(s@, last as int, m.start_spec())));
+                    assert(parts_text(parts) == parts_text(p0) + sub_chars(s@, last as int, m.start_spec()));
+                    axiom_sub_chars(s@, 0, last as int, m.start_spec());
+                    assert(parts_text(parts) =~= sub_chars(s@, 0, m.start_spec()));
+                    assert(parts =~= parts_of(splits@));
+                }
+            }
+            let ghost p1 = parts;
+            splits.push(TokenInput::Special(vt_str_slice(s, m.start(), m.end())));
+            proof {
+                parts = p1.push(Part::Special(sub_chars(s@, m.start_spec(), m.end_spec())));
+                assert(parts.drop_last() =~= p1);
+                assert(parts.last() == Part::Special(sub_chars(s@, m.start_spec(), m.end_spec())));
+                axiom_sub_chars(s@, 0, m.start_spec(), m.end_spec());
+                assert(last <= m.start_spec());
+                assert(parts_text(p1) == sub_chars(s@, 0, m.start_spec()));
+                assert(parts_text(parts) == parts_text(p1) + sub_chars(s@, m.start_spec(), m.end_spec()));
+                assert(parts_text(parts) =~= sub_chars(s@, 0, m.end_spec()));
+                assert(parts =~= parts_of(splits@));
+            }
+            last = m.end();
+        }
+        if last < vt_str_len(s) {
+            let ghost p2 = parts;
+            splits.push(TokenInput::Regular(vt_str_slice(s, last, vt_str_len(s))));
+            proof {
+                parts = p2.push(Part::Regular(sub_chars(s@, last as int, n)));
+                assert(parts.drop_last() =~= p2);
+                assert(parts.last() == Part::Regular(sub_chars(s@, last as int, n)));
+                assert(parts_text(parts) == parts_text(p2) + sub_chars(s@, last as int, n));
+                axiom_sub_chars(s@, 0, last as int, n);
+                assert(parts =~= parts_of(splits@));
+            }
+        }
+        proof { axiom_sub_chars_full(s@); }
+        splits
+    }
+//@end
 
 //@unit src/tokenization.rs fn prefix_token_ids impl=^impl<Config,State>BaseTokenize\sfor\sBaseTokenizer
     fn prefix_token_ids(&self) -> (r: &[u32])
